@@ -7,3 +7,6 @@ open MtailVerif.C20
 #print axioms only_current_vm_busy
 #print axioms swap_without_wait_reorders
 #print axioms source_shape
+#print axioms MtailVerif.C20.loader_skeletons
+#print axioms MtailVerif.C20.line_skeletons
+#print axioms MtailVerif.C20.dispatch_skeletons
